@@ -64,6 +64,24 @@ HOSTS_ODD = ['A.Example', 'xn--bcher-kva.example', 'bücher.example', '0x7f.1', 
 HOSTS_IPV6_ODD = ['[fe80::1%eth0]', '[fe80::1%25eth0]', '[fe80::1%25eth 0]', '[fe80::1%a b]', '[fe80::1%25a\tb]', '[fe80::1%25]',
                   '[fe80::1%25é]', '[FE80::1%25ETH0]', '[fe80::1%25a]b]', '[fe80::1%25a[b]', '[fe80::1%2525x y]', '[::1 ]', '[ ::1]',
                   '[::1%25 ]', '[fe80::1%25a/b]', '[fe80::1%25a@b]', '[fe80::1%25a:80]', '[v1.fe80::a]', '[::1]x', '[::ffff:1.2.3.4%25z z]']
+def nfkc_forbidden_codepoints():
+    """code points that IDNA name preparation (NFKC) turns into text holding a character forbidden in a host name
+    (space, '#%/:?@[\\]', controls): U+00A0, U+3000, U+2000..200A, U+00A8, fullwidth '/', '?', '@', ':' …"""
+    import unicodedata
+    bad = set('#%/:?@[\\] ')
+    return [c for c in range(0x80, 0x30000)
+            if any(ch in bad or ord(ch) < 0x21 for ch in unicodedata.normalize('NFKC', chr(c)))]
+
+
+NFKC_FORBIDDEN = nfkc_forbidden_codepoints()
+NFKC_LATIN1 = [c for c in NFKC_FORBIDDEN if c < 0x100]      # can travel as one byte in a Location header
+
+
+def gen_nfkc_host(rng, latin1=False):
+    c = chr(rng.choice(NFKC_LATIN1 if latin1 else NFKC_FORBIDDEN))
+    return rng.choice(['files%scdn.test', 'a%sb.example', '%sa.example', 'a.example%s', 'a.ex%sample', 'evil.test%sa.example'])% c
+
+
 NASTY = ['%0D%0A', '%0d%0aX-Injected:%201', '%20', ' ', '%00', 'é', '€', '\U0001f600', '\x7f', '\x80', '%',
          '%zz', '+', '"', '<', '>', '`', '{', '}', '|', '\\', '^', '~', '[', ']', ';', '=', '&', '@', ':', ' ',
          '\x85', '\xa0', '%25', '%2F', '%3f', '%23', '\udc80']
@@ -86,6 +104,8 @@ def gen_url(rng, hosts=None, simple=False):
     """A raw URL string plus the parts it was composed from."""
     scheme = rng.choice(['http', 'http', 'https', 'HTTP', 'hTTps']) if not simple else rng.choice(['http', 'https'])
     host = rng.choice(hosts or (HOSTS_PLAIN + HOSTS_PLAIN + HOSTS_ODD + HOSTS_IPV6_ODD[:rng.choice([0, 0, 0, 0, len(HOSTS_IPV6_ODD)])]))
+    if not hosts and rng.random() < 0.04:
+        host = gen_nfkc_host(rng)           # must be rejected: name preparation would put a space / delimiter into the host
     port = rng.choice([None, None, None, 80, 443, 8080, 81, 65535, 0, 8443])
     user = pw = None
     r = rng.random()
@@ -233,6 +253,19 @@ def split_request(data):
     return problems, method, target, version, fields
 
 
+def host_value_problem(value):
+    """why a Host value is not a syntactically valid host[:port] (None if it is)"""
+    import re
+    if not value:
+        return 'empty'
+    if any(ord(ch) <= 0x20 or ord(ch) == 0x7f or ord(ch) > 0x7e for ch in value):
+        return 'white space, control or non-ASCII character'
+    m = re.fullmatch(r'(\[[0-9A-Fa-f:.]+\]|[^\[\]#%/:?@\\]+)(:[0-9]{1,5})?', value)
+    if not m:
+        return 'delimiter character inside the host (or malformed brackets / port)'
+    return None
+
+
 def expected_host(info):
     """host[:non-default port] of a URL, computed without hostname_with_port."""
     host = info.hostname
@@ -360,6 +393,17 @@ class ScriptServer:
                 # the header arrives, the connection is lost in the middle of the body
                 conn.send(b'HTTP/1.1 %d X\r\nContent-Length: 10\r\n\r\nabc' % rep.get('status', 200))
                 conn.close()
+                return
+            if rep.get('delay'):
+                # the answer comes later (other workers run in between)
+                async def later(conn=conn, rep=rep, n=rep['delay']):
+                    for _ in range(n):
+                        await asyncio.sleep(0)
+                    if rep.get('then') == 'close':
+                        conn.close()
+                    else:
+                        conn.send(response_bytes(rep))
+                self.script.feeders.append(asyncio.ensure_future(later()))
                 return
             conn.send(response_bytes(rep))
             if b'\r\nconnection: close\r\n' in self.script.log[-1][2].lower() if self.script.log else False:
@@ -503,6 +547,7 @@ def run_session(url, replies, max_redirects=20, use_jar=True, factory_pairs=(('U
             # model parameters: what urljoin + URLInfo.parse make of each Location
             mreplies = []
             bases = []
+            locs = {}           # request index -> the Location value as the real response parser delivered it
             li = 0
             for k in range(len(script.log)):
                 rep = replies[k] if k < len(replies) else {'status': 200, 'mode': 'resp'}
@@ -527,6 +572,7 @@ def run_session(url, replies, max_redirects=20, use_jar=True, factory_pairs=(('U
                     loc = rep['location'].decode('latin-1').strip() if rep.get('location') is not None else None
                     base = 'http://%s%s' % (_hostv[0] if _hostv else 'unknown.invalid', _target.decode('latin-1'))
                 bases.append(base)
+                locs[k] = loc
                 kind, c = 0, None
                 if loc:
                     try:
@@ -544,7 +590,7 @@ def run_session(url, replies, max_redirects=20, use_jar=True, factory_pairs=(('U
                 f.cancel()
             return {'hops': hops, 'outcome': outcome, 'last': last, 'consumed': consumed_bytes(script),
                     'answers': list(jar.answers) if jar is not None else [],
-                    'mreplies': mreplies, 'bases': bases, 'init_pairs': init_pairs, 'init_url': init_url,
+                    'mreplies': mreplies, 'bases': bases, 'locs': locs, 'init_pairs': init_pairs, 'init_url': init_url,
                     'conns': len(net.conns)}
     return compat.run(go())
 
@@ -661,7 +707,8 @@ def model_replies(log, replies, loads_iter):
 
 
 def run_crawl(url, replies, tries, max_redirects, login=None, timeout=20, robots=None, cap=None, host_fail=None, retry=None,
-              extra_argv=(), recursive=False, on_request=None, on_event=None, tls_passthrough=False, req_cap=None):
+              extra_argv=(), recursive=False, on_request=None, on_event=None, tls_passthrough=False, req_cap=None,
+              more_urls=(), concurrency=1):
     """Builder(args).build().run() of the REAL application (pipeline, URL table, processor, rules,
     filters, web client) against the scripted servers.  Returns the visits of `url` as seen at the
     URL table: [(requests issued during the visit, status after, try_count after)], plus the
@@ -688,6 +735,7 @@ def run_crawl(url, replies, tries, max_redirects, login=None, timeout=20, robots
         # a terminating crawl of ONE url makes at most tries+1 check-outs (tries >= 1); with tries = 0 every
         # visit that is offered again consumed a scripted reply
         cap = (tries + 4) if tries >= 1 else (len(replies) + len(robots['replies'] if robots else []) + 6)
+        cap = cap * (1 + len(more_urls))
     capped = [False]
     if req_cap is None:
         # no terminating crawl of one URL sends more: (tries+1) visits x (2*(max_redirects+1) requests, twice for robots.txt)
@@ -760,7 +808,7 @@ def run_crawl(url, replies, tries, max_redirects, login=None, timeout=20, robots
                 raise ConnectionRefusedError(111, 'Connection refused')
         net = RefusingNet()
     tmp = tempfile.mkdtemp(prefix='c18-')
-    argv = [url] + (['--recursive', '--level', '1'] if robots else (['--recursive', '--no-robots'] if recursive else ['--no-robots'])) \
+    argv = [url] + list(more_urls) + (['--recursive', '--level', '1'] if robots else (['--recursive', '--no-robots'] if recursive else ['--no-robots'])) \
         + list(extra_argv) + ['--tries', str(tries), '--max-redirect', str(max_redirects), '--waitretry', '0',
             '-q', '--directory-prefix', tmp, '--delete-after', '--no-check-certificate', '--html-parser', 'html5lib']
     if login:
@@ -792,6 +840,9 @@ def run_crawl(url, replies, tries, max_redirects, login=None, timeout=20, robots
             b.factory.class_map['RedirectTracker'] = LogTracker
             b.factory.class_map['FetchRule'] = LogFetchRule
             app = b.build()
+            if concurrency != 1:
+                # `--concurrent` is parsed but never applied in this tree: the workers are set on the pipeline series
+                b.factory['PipelineSeries'].concurrency = concurrency
 
             async def go():
                 task = asyncio.ensure_future(compat._ensure(app.run()))
